@@ -407,7 +407,8 @@ def c17(tier, seed, only=None):
     jobs = []
     ok_only = [["succeeded", None]]
     for s in gen.f2_all(tier) + gen.f4_all(tier) + gen.f5_all(tier):
-        cfg = dict(rerun=1, rerun_mode="all" if tier != "quick" else "tasks", rerun_outcomes=ok_only, horizon=70)
+        cfg = dict(rerun=1, rerun_mode="failed-pairs" if tier != "quick" else "failed", rerun_outcomes=ok_only,
+                   horizon=70)
         if gen.is_big(s):
             cfg["dev"] = 3 if tier == "quick" else 5
         jobs.append(job(s, cfg, mons))
@@ -421,8 +422,8 @@ def c17(tier, seed, only=None):
     results = runner.run_jobs(jobs, seed=seed)
     rule = (
         "every completed history of F2/F4/F5 (task failure, item failure, fail command, unreachable join, "
-        "success) x every admissible request (default; each existing execution; reset_items; pairs in "
-        "thorough) x every continuation in which re-executed actions succeed (thorough: fail again, second "
+        "success) x every admissible request (default; each failed execution; reset_items; pairs in "
+        "thorough; explicit reruns of succeeded executions are exercised by C03/C15 only) x every continuation in which re-executed actions succeed (thorough: fail again, second "
         "rerun); token-game reference extended with the requested executions decides which offers are "
         "justified; inadmissible requests probed in every state; clean-twin comparison at the end"
     )
